@@ -16,6 +16,10 @@ class ForkRequest(Exception):
     def __init__(self, cond): self.cond = cond
 
 
+class Blocked(Exception):
+    """the running logical thread cannot proceed (lock held by another thread); the step is retried when it resumes"""
+
+
 class PathDone(Exception):
     """the current path ends here (assume(false), blocked thread, ...)"""
 
@@ -206,6 +210,7 @@ class Machine:
         self.max_steps = 2_000_000
         self.deadline = None if timeout_s is None else time.time() + timeout_s
         self.hooks = {}
+        self.spawned = []
 
     # ------------------------------------------------------------------------------------ solver
     def check(self, pc, extra=None):
@@ -529,6 +534,8 @@ class Machine:
             try:
                 while True:
                     if len(st.frames) <= until_depth:
+                        h = self.hooks.get('idle')
+                        if h is not None and h(self, st): continue          # another logical thread is runnable
                         done.append(('ret', st, st.retval)); break
                     if self.deadline is not None and time.time() > self.deadline:
                         raise Inconclusive('time limit of this job reached')
@@ -537,7 +544,15 @@ class Machine:
                     try:
                         self.step(st)
                         if st.decisions: st.decisions = {}
+                        if self.spawned:
+                            work.extend(self.spawned); self.spawned = []
+                    except Blocked:
+                        self.spawned = []
+                        r = self.hooks['blocked'](self, st)
+                        if r == 'deadlock':
+                            done.append(('deadlock', st, None)); break
                     except ForkRequest as f:
+                        self.spawned = []
                         cond, key, side, mdl_other = f.cond
                         self.forks += 1
                         s2 = st.clone()
